@@ -249,6 +249,7 @@ func ParseInstalled(installed io.Reader) ([]*InstalledPackage, error) { //nolint
 	pkg := &InstalledPackage{}
 	linenr := 1
 	var lastDir, lastFile *tar.Header
+	var lastDirIdx int
 
 	for indexScanner.Scan() {
 		line := indexScanner.Text()
@@ -338,6 +339,7 @@ func ParseInstalled(installed io.Reader) ([]*InstalledPackage, error) { //nolint
 				Gid:      0,
 				Typeflag: tar.TypeDir,
 			}
+			lastDirIdx = len(pkg.Files)
 			pkg.Files = append(pkg.Files, *lastDir)
 			lastFile = nil
 		case "M":
@@ -352,6 +354,7 @@ func ParseInstalled(installed io.Reader) ([]*InstalledPackage, error) { //nolint
 			lastDir.Uid = uid
 			lastDir.Gid = gid
 			lastDir.Mode = perms
+			pkg.Files[lastDirIdx] = *lastDir
 		case "R":
 			fullpath := val
 			if lastDir != nil {
@@ -376,6 +379,7 @@ func ParseInstalled(installed io.Reader) ([]*InstalledPackage, error) { //nolint
 			lastFile.Uid = uid
 			lastFile.Gid = gid
 			lastFile.Mode = perms
+			pkg.Files[len(pkg.Files)-1] = *lastFile
 		}
 
 		linenr++
